@@ -1198,3 +1198,149 @@ func interveningWriter(fn *ssa.Function, from, to ssa.Instruction, isWriter func
 	}
 	return false
 }
+
+// ---------- correlated-branch reachability ----------
+
+// AssumeReach decides whether `target` can execute when the function is entered with the field
+// whose selector ends in assumeSuffix equal to the constant assumeVal. It is a depth-first search
+// over the CFG that carries the set of equalities known on the current path: an If on a comparison
+// already decided on the path (same field location with no store in between, same SSA value, same
+// constant) is followed only along the consistent edge. Facts about a field are dropped at a store
+// to that field and, for repository callees, at any call (std calls cannot write repository state).
+type condKey struct{ x, y string }
+
+func operandKey(v ssa.Value) string {
+	if k, ok := constInt(v); ok {
+		return "k:" + itoa(int(k))
+	}
+	if c, ok := v.(*ssa.Const); ok && c.IsNil() {
+		return "nil"
+	}
+	if root, sel, ok := fieldLoad(v); ok {
+		return "f:" + root.Name() + sel
+	}
+	return "v:" + v.Name()
+}
+
+func (p *Program) AssumeReach(fn *ssa.Function, target ssa.Instruction, assumeSuffix string, assumeVal int64) bool {
+	type known map[condKey]bool // (x,y) -> x == y ?
+	enc := func(k known) string {
+		var parts []string
+		for c, t := range k {
+			s := c.x + "=" + c.y
+			if !t {
+				s = c.x + "!" + c.y
+			}
+			parts = append(parts, s)
+		}
+		sort.Strings(parts)
+		return strings.Join(parts, ";")
+	}
+	copyK := func(k known) known {
+		n := known{}
+		for c, t := range k {
+			n[c] = t
+		}
+		return n
+	}
+	dropField := func(k known, suffix string, all bool) {
+		for c := range k {
+			for _, s := range []string{c.x, c.y} {
+				if strings.HasPrefix(s, "f:") && (all || strings.HasSuffix(s, suffix)) {
+					delete(k, c)
+				}
+			}
+		}
+	}
+	assumed := true // the entry assumption still holds (no store to the assumed field so far)
+	_ = assumed
+	seen := map[string]bool{}
+	var dfs func(b *ssa.BasicBlock, k known, holds bool) bool
+	dfs = func(b *ssa.BasicBlock, k known, holds bool) bool {
+		key := itoa(b.Index) + "|" + enc(k)
+		if holds {
+			key += "|A"
+		}
+		if seen[key] {
+			return false
+		}
+		seen[key] = true
+		k = copyK(k)
+		for _, in := range b.Instrs {
+			if in == target {
+				return true
+			}
+			switch x := in.(type) {
+			case *ssa.Store:
+				_, sel := accessPath(x.Addr)
+				if sel != "" {
+					dropField(k, sel, false)
+					if strings.HasSuffix(sel, assumeSuffix) {
+						holds = false
+					}
+				} else {
+					dropField(k, "", true)
+				}
+			case ssa.CallInstruction:
+				cs, _ := p.Callees(x)
+				if len(cs) > 0 {
+					dropField(k, "", true)
+					holds = false
+				}
+			}
+		}
+		if len(b.Succs) != 2 {
+			for _, s := range b.Succs {
+				if dfs(s, k, holds) {
+					return true
+				}
+			}
+			return false
+		}
+		for _, s := range b.Succs {
+			br, ok := edgeCond(b, s)
+			nk := k
+			if ok {
+				if f, okf := branchFact(br); okf && f.Y != nil && (f.Op == token.EQL || f.Op == token.NEQ) {
+					kx, ky := operandKey(f.X), operandKey(f.Y)
+					if ky < kx {
+						kx, ky = ky, kx
+					}
+					ck := condKey{kx, ky}
+					want := f.Op == token.EQL
+					// the entry assumption
+					if holds {
+						fk, other := "", ""
+						if strings.HasPrefix(kx, "f:") && strings.HasSuffix(kx, assumeSuffix) {
+							fk, other = kx, ky
+						} else if strings.HasPrefix(ky, "f:") && strings.HasSuffix(ky, assumeSuffix) {
+							fk, other = ky, kx
+						}
+						if fk != "" && strings.HasPrefix(other, "k:") {
+							truth := other == "k:"+itoa(int(assumeVal))
+							if truth != want {
+								continue // edge contradicts the assumption
+							}
+						}
+					}
+					if t, have := k[ck]; have {
+						if t != want {
+							continue // edge contradicts what the path already decided
+						}
+					} else {
+						nk = copyK(k)
+						nk[ck] = want
+					}
+				}
+			}
+			if dfs(s, nk, holds) {
+				return true
+			}
+		}
+		return false
+	}
+	if len(fn.Blocks) == 0 {
+		return false
+	}
+	return dfs(fn.Blocks[0], known{}, true)
+}
